@@ -1699,6 +1699,9 @@ def _unique_internal(ar, indices, counts, return_inverse=False):
     if return_index or return_counts:
         for i, v in enumerate(r["values"]):
             m = ar == v
+            if v != v:
+                # np.unique collapses all NaN (NaT) entries into a single one
+                m = ar != ar
             if return_index:
                 indices[m].min(keepdims=True, out=r["indices"][i : i + 1])
             if return_counts:
@@ -1864,7 +1867,13 @@ def unique(ar, return_index=False, return_inverse=False, return_counts=False):
         # index in axis `1` (the one of unknown length). Reduce axis `1`
         # through summing to get an array with known dimensionality and the
         # mapping of the original values.
-        matches = (ar[:, None] == out["values"][None, :]).astype(np.intp)
+        matches = ar[:, None] == out["values"][None, :]
+        if ar.dtype.kind in "fcmM":
+            # NaN (NaT) never compares equal to the single NaN entry of the
+            # unique values
+            isnan, isnan_values = ar != ar, out["values"] != out["values"]
+            matches = matches | (isnan[:, None] & isnan_values[None, :])
+        matches = matches.astype(np.intp)
         inverse = (matches * out["inverse"]).sum(axis=1)
         if NUMPY_GE_200:
             inverse = inverse.reshape(orig_shape)
